@@ -4,87 +4,95 @@ import (
 	"fmt"
 	"strings"
 	"testing"
-	"time"
 )
 
-func dump(t *testing.T, title string, r RunResult) {
-	t.Helper()
+func dump(title string, r RunResult) {
 	fmt.Printf("== %s\n", title)
 	for _, it := range r.Out.Trace {
 		fmt.Printf("  %3d %s\n", it.Seq, it.Text)
 	}
-	fmt.Printf("  final: %s\n  addrs: %v\n", r.Out.Final.Text(), r.Addrs)
+	fmt.Printf("  final: %s\n", r.Out.Final.Text())
 	for _, f := range r.Failures {
 		fmt.Printf("  FAILURE: %s\n", f)
 	}
 }
 
-func currentAll(plan []planGroup, c Cluster) []WSched {
-	var ws []WSched
-	for i, g := range plan {
-		if g.Kind != "GWait" {
-			continue
-		}
-		// find the preceding group to know whether this is an apply or a prune wait
-		prune := i > 0 && plan[i-1].Kind == "GPrune"
-		var w WSched
-		w.End = WCancel
-		for _, id := range g.IDs {
-			if prune {
-				w.Deliv = append(w.Deliv, SObs{ID: id, St: SNotFound})
-			} else {
-				uid := uint64(0)
-				if o := c.Find(id); o != nil {
-					uid = o.UID
-				}
-				w.Deliv = append(w.Deliv, SObs{ID: id, St: SCurrent, Body: true, UID: uid, Gen: 2})
-			}
-		}
-		ws = append(ws, w)
+func perfect(t *testing.T, st *Store, sc Scenario) RunResult {
+	t.Helper()
+	pr := Probe(st, sc)
+	sc.Env = Env{WatchErrAt: -1, Waits: pr.Waits}
+	r := ExecRun(st, sc)
+	if testing.Verbose() {
+		dump(sc.Text(), r)
 	}
-	return ws
+	if len(r.Failures) > 0 {
+		t.Fatalf("failures: %v", r.Failures)
+	}
+	if last := r.Out.Trace[len(r.Out.Trace)-1]; last.Coq != "IClosed" {
+		t.Fatalf("trace does not end with IClosed: %s", last.Text)
+	}
+	return r
 }
 
-func TestStep1(t *testing.T) {
+// apply two ConfigMaps, prune one, destroy: the smoke test of the plumbing.
+func TestRoundTrip(t *testing.T) {
 	univ := NewUniverse([]UEntry{Entry("ConfigMap", invNS, "cm-a"), Entry("ConfigMap", invNS, "cm-b"), Entry("Namespace", "", invNS)})
-	fmt.Println(univ.Text())
-	init := Cluster{NextUID: 100}
-	st := NewStore(univ, init)
-	sc := Scenario{Univ: univ, Local: []LObj{{ID: 1, Ver: 1}, {ID: 2, Ver: 1}},
-		Opts: Opts{Prune: true, Policy: PMustMatch},
-		Env: Env{WatchErrAt: -1, Waits: []WSched{{End: WCancel, Deliv: []SObs{
-			{ID: 1, St: SCurrent, Body: true, UID: 100, Gen: 2}, {ID: 2, St: SInProgress, Body: true, UID: 101, Gen: 2},
-			{ID: 2, St: SCurrent, Body: true, UID: 101, Gen: 2}}}}}}
-	t0 := time.Now()
-	r := ExecRun(st, sc)
-	fmt.Println("took", time.Since(t0))
-	dump(t, sc.Text(), r)
-	fmt.Println(strings.Repeat("-", 40))
-	fmt.Println(sc.Coq())
-	fmt.Println(r.Out.Coq())
+	st := NewStore(univ, Cluster{NextUID: 100})
+	r := perfect(t, st, Scenario{Univ: univ, Local: []LObj{{ID: 1, Ver: 1}, {ID: 2, Ver: 1}}, Opts: Opts{Prune: true}})
+	if got := r.Out.Final.Text(); got != "1{u100 Ours v1 applied} 2{u101 Ours v1 applied} inv[1 2] next=102" {
+		t.Fatalf("after apply: %s", got)
+	}
+	r = perfect(t, st, Scenario{Univ: univ, Local: []LObj{{ID: 1, Ver: 1}}, Opts: Opts{Prune: true}})
+	if got := r.Out.Final.Text(); got != "1{u100 Ours v1 applied} inv[1] next=102" {
+		t.Fatalf("after prune: %s", got)
+	}
+	r = perfect(t, st, Scenario{Univ: univ, Opts: Opts{Destroy: true, Prune: true}})
+	if got := r.Out.Final.Text(); got != "inv=None next=102" {
+		t.Fatalf("after destroy: %s", got)
+	}
 }
 
 func TestCRD(t *testing.T) {
 	univ := NewUniverse([]UEntry{Entry("CustomResourceDefinition", "", crdMeta.Name), Entry("Bar", invNS, "bar-a"), Entry("ConfigMap", invNS, "cm-a")})
-	fmt.Println(univ.Text(), univ.Coq())
 	st := NewStore(univ, Cluster{NextUID: 100})
 	var ls []LObj
 	for i := range univ {
 		ls = append(ls, LObj{ID: i, Ver: 1})
 	}
-	sc := Scenario{Univ: univ, Local: ls, Opts: Opts{Prune: true}}
-	pr := Probe(st, sc)
-	sc.Env = Env{WatchErrAt: -1, Waits: pr.Waits}
-	dump(t, sc.Text(), ExecRun(st, sc))
-	for i := range ls {
-		ls[i].Ver = 2
+	r := perfect(t, st, Scenario{Univ: univ, Local: ls, Opts: Opts{Prune: true}})
+	if len(r.Out.Final.Objs) != 3 {
+		t.Fatalf("CRD, custom resource and ConfigMap expected: %s", r.Out.Final.Text())
 	}
-	sc = Scenario{Univ: univ, Local: ls[1:], Opts: Opts{Prune: true}}
-	pr = Probe(st, sc)
-	sc.Env = Env{WatchErrAt: -1, Waits: pr.Waits}
-	dump(t, sc.Text(), ExecRun(st, sc))
-	sc = Scenario{Univ: univ, Opts: Opts{Destroy: true, Prune: true}}
-	pr = Probe(st, sc)
-	sc.Env = Env{WatchErrAt: -1, Waits: pr.Waits}
-	dump(t, sc.Text(), ExecRun(st, sc))
+	// the custom resource is applied in the layer after its CRD
+	txt := r.Out.Text()
+	if !(strings.Index(txt, "RCreate 0 ") < strings.Index(txt, "started wait-0") && strings.Index(txt, "finished wait-0") < strings.Index(txt, "RCreate 2 ")) {
+		t.Fatalf("order: %s", txt)
+	}
+}
+
+// the same scenario from the same state gives the same trace
+func TestDeterministic(t *testing.T) {
+	univ := NewUniverse([]UEntry{Entry("ConfigMap", invNS, "cm-a"), Entry("ConfigMap", invNS, "cm-b")})
+	init := Cluster{NextUID: 100}
+	sc := Scenario{Univ: univ, Local: []LObj{{ID: 0, Ver: 1}, {ID: 1, Ver: 1, Deps: []int{0}}},
+		Opts: Opts{Prune: true, RecTimeout: true, StatusEvents: true},
+		Env: Env{WatchErrAt: -1, Waits: []WSched{
+			{Deliv: []SObs{{ID: 0, St: SInProgress, Body: true, UID: 100, Gen: 2}, {ID: 0, St: SCurrent, Body: true, UID: 100, Gen: 2},
+				{ID: 0, St: SFailed, Body: true, UID: 100, Gen: 2}}, End: WCancel},
+			{Deliv: []SObs{{ID: 1, St: SInProgress, Body: true, UID: 101, Gen: 2}}, End: WTimeout}}}}
+	var first string
+	for i := 0; i < 5; i++ {
+		r := ExecRun(NewStore(univ, init), sc)
+		if len(r.Failures) > 0 {
+			t.Fatalf("failures: %v", r.Failures)
+		}
+		if i == 0 {
+			first = r.Out.Coq()
+			if !strings.Contains(first, "WTimedOut") || strings.Contains(first, "SFailed") {
+				t.Fatalf("expected a timeout of wait-1 and the third delivery of wait-0 dropped: %s", r.Out.Text())
+			}
+		} else if r.Out.Coq() != first {
+			t.Fatalf("run %d differs:\n%s\n%s", i, first, r.Out.Coq())
+		}
+	}
 }
